@@ -225,25 +225,29 @@ mutual
           let ifl0 ← breakDetect coll roEnd
           if h : ifl0.length < n then do
             let ifl ← condDetectD d ifl0 roEnd
-            let last ← pyGet ifl (-1)
-            match last with
-            | .stmt _ (.jump jpos jaddr) =>
-              let exitElse := match roEnd with | some e => decide (e < jaddr) | none => false
-              if exitElse then
-                let ifl' := ifl.dropLast ++ [exitRepeatStmt jpos]
-                condJzs d n restJz (finalizeIf opos (.ifThen opos cond ifl' []) stmts2) roEnd
-              else do
-                let ecoll := elseScan jpos jaddr stmts2
-                let stmts3 ← pyRemoveAll stmts2 ecoll
-                let ifl' := ifl.dropLast
-                let el0 ← breakDetect ecoll roEnd
-                if h2 : el0.length < n then do
-                  let el ← condDetectD d el0 roEnd
-                  condJzs d n restJz (finalizeIf opos (.ifThen opos cond ifl' el) stmts3) roEnd
-                else .error .other
-            | .stmt _ _ =>
+            -- `last_idx >= 0 and isinstance(…, JumpOperation)` (F133): an empty if-list has no else jump
+            if ifl.isEmpty then
               condJzs d n restJz (finalizeIf opos (.ifThen opos cond ifl []) stmts2) roEnd
-            | _ => .error .type
+            else do
+              let last ← pyGet ifl (-1)
+              match last with
+              | .stmt _ (.jump jpos jaddr) =>
+                let exitElse := match roEnd with | some e => decide (e < jaddr) | none => false
+                if exitElse then
+                  let ifl' := ifl.dropLast ++ [exitRepeatStmt jpos]
+                  condJzs d n restJz (finalizeIf opos (.ifThen opos cond ifl' []) stmts2) roEnd
+                else do
+                  let ecoll := elseScan jpos jaddr stmts2
+                  let stmts3 ← pyRemoveAll stmts2 ecoll
+                  let ifl' := ifl.dropLast
+                  let el0 ← breakDetect ecoll roEnd
+                  if h2 : el0.length < n then do
+                    let el ← condDetectD d el0 roEnd
+                    condJzs d n restJz (finalizeIf opos (.ifThen opos cond ifl' el) stmts3) roEnd
+                  else .error .other
+              | .stmt _ _ =>
+                condJzs d n restJz (finalizeIf opos (.ifThen opos cond ifl []) stmts2) roEnd
+              | _ => .error .type
           else .error .other
       | _ => .error .other
   termination_by (d, n, jzs.length)
@@ -255,6 +259,7 @@ mutual
       · exact Prod.Lex.left _ _ hh
       · have : ifl0.length + 1 = n := by omega
         rw [this]; exact Prod.Lex.right _ (by simp)
+    · exact Prod.Lex.right _ (Prod.Lex.right _ (by simp))
     · exact Prod.Lex.right _ (Prod.Lex.right _ (by simp))
     · apply Prod.Lex.right
       by_cases hh : el0.length + 1 < n
@@ -326,7 +331,7 @@ def isRepeatWith (r : Ro) (prev : Option Node) : R Bool :=
     if pop ≠ S "assign" then .ok false else do
       let varname1 ← pleft.name
       match r.cond with
-      | .binary _ _ cleft _ => do
+      | .binary cname _ cleft _ => do
         let varname2 ← cleft.name
         if varname1 ≠ varname2 then pure false else
         match r.stmts.reverse with
@@ -338,9 +343,16 @@ def isRepeatWith (r : Ro) (prev : Option Node) : R Bool :=
               let varname3 ← lleft.name
               if varname1 ≠ varname3 then pure false else
               match lright with
-              | .binary iop _ _ iright => do
+              | .binary iop _ ileft iright => do
                 let rn ← iright.name
-                if rn ≠ varname3 ∨ iop ≠ S "add" then pure false else pure true
+                if rn ≠ varname3 ∨ iop ≠ S "add" then pure false else
+                -- the step is the constant 1 (to, while v <= end) or -1 (down to, while v >= end)   (F134, F135)
+                match ileft with
+                | .leaf .const sn _ =>
+                  if sn == Name.s (S "1") then pure (cname == S "lte")
+                  else if sn == Name.s (S "-1") then pure (cname == S "gte")
+                  else pure false
+                | _ => pure false
               | _ => pure false
           | .stmt _ _ => pure false
           | _ => .error .type
@@ -367,7 +379,7 @@ def Node.operands : Node → R (List Node)
 /-- `is_repeat_with_in_list(ro)` -/
 def isRepeatWithIn (r : Ro) : R Bool :=
   match r.cond with
-  | .binary _ _ (.leaf .const index _) (.callFn cname _ cpar _ _ _ _) =>
+  | .binary _ _ (.leaf .const index ipos) (.callFn cname _ cpar _ _ _ _) =>
     if index ≠ Name.s (S "1") ∨ cname ≠ Name.s (S "count") then .ok false else
     match r.stmts with
     | [] => .ok false
@@ -384,8 +396,7 @@ def isRepeatWithIn (r : Ro) : R Bool :=
             let a1 ← pyGet aops 1
             if !(c0.pyEq a1) then pure false else do
               let a0 ← pyGet aops 0
-              let a0n ← a0.name
-              pure (a0n == Name.s (S "1"))
+              pure (a0.pyEq (.leaf .const index ipos))      -- the getAt index is the loop's own counter (F136)
         | _ => .ok false
       | .stmt _ _ => .ok false
       | _ => .error .type
